@@ -147,6 +147,50 @@ Theorem feature_mode_lambda_is_mi_share :
 Proof. exact mixup_feature_lambda. Qed.
 Print Assumptions feature_mode_lambda_is_mi_share.
 
+(* 5b. The L1 normalisation at full strength: for EVERY non-negative score vector with positive sum (mass 1, 1 +- 1e-5,
+       10, ...) and EVERY mask row, lambda is the share of the kept mass and lies in [0,1]; all columns kept <-> 1,
+       none kept <-> 0; with a single column (F = 1) lambda is 1 or 0 exactly as the row keeps or swaps its column. *)
+Theorem lambda_is_share_and_in_unit_interval :
+  forall mi mrow, Forall (fun v => 0 <= v) mi -> 0 < qsum mi ->
+    lam_feature mi mrow == kept_mass mi mrow / qsum mi /\ 0 <= lam_feature mi mrow <= 1.
+Proof. exact lam_feature_share_unit. Qed.
+Print Assumptions lambda_is_share_and_in_unit_interval.
+
+Theorem lambda_of_all_kept_and_none_kept :
+  forall mi, 0 < qsum mi ->
+    lam_feature mi (repeat true (length mi)) == 1 /\ lam_feature mi (repeat false (length mi)) == 0.
+Proof. intros mi H. split; [apply lam_feature_all_kept|apply lam_feature_none_kept]; exact H. Qed.
+Print Assumptions lambda_of_all_kept_and_none_kept.
+
+Theorem single_column_lambda_is_zero_or_one :
+  forall m b, 0 < m -> lam_feature [m] [b] == bq b.
+Proof. exact lam_feature_single_column. Qed.
+Print Assumptions single_column_lambda_is_zero_or_one.
+
+(* two rewrites of this block that look harmless are REFUTED (computed witnesses; both are replayed against /repo on
+   every run: the generator draws the witness vector and one-column batches, share_agrees checks lambda = share):
+   - "skip the normalisation when the mass is within 1e-3 of one": [0.5008; 0.3; 0.2], all columns kept -> 1.0008 > 1;
+   - "fall back to hidden mode when F = 1": lambda becomes the beta rate instead of the share. *)
+Theorem skip_normalisation_when_close_to_one_refuted :
+  exists mi mrow,
+    Forall (fun v => 0 <= v) mi /\ 0 < qsum mi /\
+    ~ (lam_feature_skip_close mi mrow <= 1) /\ ~ (lam_feature_skip_close mi mrow == kept_mass mi mrow / qsum mi) /\
+    lam_feature mi mrow == 1.
+Proof. exact skip_close_refuted. Qed.
+Print Assumptions skip_normalisation_when_close_to_one_refuted.
+
+Theorem single_column_hidden_fallback_refuted :
+  exists mi (dr : draws),
+    0 < qsum mi /\
+    mixup_lams MixFeature (Some mi) dr = map (lam_feature mi) (draw_mask (rates dr) (unif dr)) /\
+    ~ Forall2 Qeq (mixup_lams MixHidden (Some mi) dr) (mixup_lams MixFeature (Some mi) dr).
+Proof. exact single_column_fallback_refuted. Qed.
+Print Assumptions single_column_hidden_fallback_refuted.
+
+Example share_agrees_example :
+  share_agrees 0 [5008 # 10000; 3 # 10; 2 # 10] [([true; true; true], 1); ([true; false; false], 5008 # 10008)] = true.
+Proof. vm_compute. reflexivity. Qed.
+
 (* 6. Mixup off: features unchanged, plain one-hot labels / plain scalars. *)
 Theorem off_features_unchanged :
   forall x y nc mi dr xm ym, feature_mixup x y nc MixNone mi dr = Some (xm, ym) -> xm = x.
